@@ -63,6 +63,25 @@ func BuildEnvelope(
 		return nil, ErrInvalidThreshold
 	}
 
+	// Only shares that are actually dealt to a grant which at least one keypair
+	// can decrypt are recoverable: reject configurations that can never be opened.
+	var reachableShares uint32
+	remainingShares := totalShares
+	for _, gc := range grants {
+		sc := gc.GetShareCount()
+		if sc == 0 {
+			sc = 1
+		}
+		sc = min(sc, remainingShares)
+		remainingShares -= sc
+		if len(gc.GetKeypairIndexes()) != 0 {
+			reachableShares += sc
+		}
+	}
+	if reachableShares < threshold+1 {
+		return nil, ErrInvalidThreshold
+	}
+
 	// Generate random Ristretto255 scalar as the master secret.
 	g := group.Ristretto255
 	secret := g.RandomNonZeroScalar(rnd)
